@@ -13,6 +13,7 @@ EXPLANATION = (
     "instructions' by induction (on paper). R5 (DOM): in the run loop the HALT test lies on every path from Proceed to "
     "execute and its true edge only leads back to the loop head; every resuming command arm passes the HALT check before "
     "changing the status."
+    " R3/R4: step into N is decided representation-independently - the one-step outcome of the stepper for every counter value and the rank of every initial counter (N Proceeds, waiting again on the N-th). R5's HALT test is required per cycle of the run loop; the HALT helper is found by role. R6 also: no command arm returns Proceed itself."
 )
 NOT_DECIDED = ("that the composed machine pauses exactly where the statement says for all programs (breakpoint interplay, "
                "nested subroutines); this is argued on paper from R2-R5")
